@@ -79,6 +79,18 @@ fn go<'a, T: IteTable<'a, BddPtr<'a>> + Default>(
                     got,
                     p.to_string_debug()
                 );
+                // what the generator reaches: size of every result, and of the operands of the cofactor-style ops
+                let bucket = |n: usize| match n {
+                    0..=4 => "0_4",
+                    5..=16 => "5_16",
+                    17..=64 => "17_64",
+                    _ => "above_64",
+                };
+                st.bump(&format!("result_nodes.{}", bucket(bdd_nodes(p).len())));
+                if matches!(out.kind, "cond" | "cond_model" | "exists" | "compose" | "ite" | "and" | "xor") {
+                    let big = out.args.iter().map(|a| bdd_nodes(run.pool[*a].0).len()).max().unwrap_or(0);
+                    st.bump(&format!("largest_operand_nodes.{}.{}", out.kind, bucket(big)));
+                }
                 if out.args.len() >= 2 || matches!(out.kind, "cond" | "cond_model" | "exists" | "compose") {
                     let nonlit = out.args.iter().filter(|a| !is_literal_or_const(run.pool[**a].0)).count();
                     if nonlit >= 1 && !t.is_const() && t.support_size() >= 2 {
@@ -118,13 +130,13 @@ fn go<'a, T: IteTable<'a, BddPtr<'a>> + Default>(
 impl SubCheckT for Hist {
     type Case = Case;
     const NAME: &'static str = "history";
-    const RULE: &'static str = "random builder configuration (n0<=6 initial variables, occasionally none, up to 8 in total through new_var; in a fifth of the cases embedded in a builder with 9..200 variables under a pseudo-random order, the history's variables scattered among them and partial models assigning the others too, random order permutation, AllIteTable / LruIteTable default / LruIteTable with 1..16 or 32..256 slots, unique table default or 1..64 slots) and <=60 (thorough: <=100) operations over a growing pool; every result's truth table (read by walking var/low/high) is compared with the oracle, and the whole pool is re-read at 3 checkpoints and at the end. Non-trivial: >=3 results that are non-constant, depend on >=2 variables and come from a binary/ternary/cofactor-style op with at least one non-literal argument; distinct = distinct (configuration, history)";
+    const RULE: &'static str = "random builder configuration (n0<=8 initial variables, occasionally none, up to 8 in total through new_var; in a fifth of the cases embedded in a builder with 9..200 variables under a pseudo-random order, the history's variables scattered among them and partial models assigning the others too, random order permutation, AllIteTable / LruIteTable default / LruIteTable with 1..16 or 32..256 slots, unique table default or 1..64 slots) and <=60 (thorough: <=100) operations over a growing pool, three histories in ten starting from one or two dense random functions (truth table drawn as a whole, several dozen nodes); every result's truth table (read by walking var/low/high) is compared with the oracle, and the whole pool is re-read at 3 checkpoints and at the end. Non-trivial: >=3 results that are non-constant, depend on >=2 variables and come from a binary/ternary/cofactor-style op with at least one non-literal argument; distinct = distinct (configuration, history)";
     fn cases(tier: Tier) -> u32 {
         tier.pick(20_000, 200_000)
     }
     fn strategy(tier: Tier) -> BoxedStrategy<Case> {
         (
-            cfg_strategy(6),
+            cfg_strategy(8),
             // now and then: a builder that starts without any variable (all variables added at run time), and
             // lossy caches of 32..256 slots, which grow several times within one history
             prop_oneof![30 => Just(None), 1 => Just(Some(0u8))],
